@@ -97,6 +97,13 @@ class Trace:
             if s is None:
                 break
             prev = s
+        # a reachable freed record = corrupted engine state: what the implementation does afterwards is undefined
+        # (use after free); monitors look at the history up to and including that step
+        for i, st in enumerate(self.steps):
+            sn = st["after"]
+            if sn and (sn.get("uafw", 0) > 0 or any((h and h.get("freed")) for k in sn["keys"].values() for h in [k.get("cur")] + k["holders"] + k["waiters"])):
+                self.steps = self.steps[:i + 1]
+                break
         self.reqs = {}
         for st in self.steps:
             if st["req"]:
@@ -240,7 +247,10 @@ def mon_c03(tr, drained=True):
             else:
                 terminal[rp["req"]] += 1
                 if terminal[rp["req"]] > 1:
-                    out.append(("reply:second-terminal-reply", "request %d answered twice (result %d)" % (rp["req"], rp["result"]), i))
+                    kind = st["line"].split()[0]
+                    late = rp["result"] == R["LOCKED"] and kind == "ack" and tr.reqs[rp["req"]]["tflag"] & 0x1000
+                    out.append(("reply:second-terminal-reply" + (":locked-error-by-ack-registered-after-rollback" if late else ""),
+                                "request %d answered twice (result %d)" % (rp["req"], rp["result"]), i))
     if drained and tr.steps and tr.steps[-1]["after"] is not None and not any(s["panic"] for s in tr.steps):
         for rq in tr.reqs.values():
             if terminal[rq["req"]] == 0 and expired[rq["req"]] == 0:
@@ -414,7 +424,8 @@ def mon_c17(tr, drained=True):
             out.append(("counts:KeyCount", "STATE KeyCount=%d but %d live keys" % (s["K"], len(s["keys"])), i))
         for rp in st["replies"]:
             g = tr.reqs.get(rp["req"])
-            if g and g["key"] in s["keys"] and rp is st["replies"][-1]:
+            newpend = [h for k in s["keys"].values() for h in live_holders(k) if h["ack"] != 255]
+            if g and g["key"] in s["keys"] and rp is st["replies"][-1] and not newpend:
                 if rp["lcount"] != s["keys"][g["key"]]["locked"] % 65536:
                     out.append(("counts:LCount", "reply to %d reports LCount %d, key holds %d" % (rp["req"], rp["lcount"], s["keys"][g["key"]]["locked"]), i))
     if drained and tr.steps and tr.steps[-1]["after"] and not any(s["panic"] for s in tr.steps) and not out:
@@ -481,6 +492,80 @@ def mon_c10(tr):
     return out
 
 
+def mon_c11(tr):
+    """require-ack locks: SUCCED only through an acknowledgement; LOCK_ACK_WAITING meanwhile; failure / timeout /
+    demotion => error reply, hold removed."""
+    out = []
+    pending = {}      # req -> step index of the grant
+    cfg = 1
+    seen = collections.defaultdict(list)     # registration index -> [(kind, ok)]
+    for i, st in enumerate(tr.steps):
+        kind = st["line"].split()[0]
+        f = st["line"].split()
+        if kind == "ackcfg":
+            cfg = int(f[1])
+        if kind == "ack":
+            idx = int(f[1])
+            seen[idx].append((f[3] if len(f) > 3 else "aofed", f[2] == "1"))
+            for rp in st["replies"]:
+                g = tr.reqs.get(rp["req"])
+                if g and g["islock"] and g["tflag"] & 0x1000 and rp["result"] == 0:
+                    ev = seen[idx]
+                    flushed = any(k == "aofed" and ok for k, ok in ev)
+                    followers = sum(1 for k, ok in ev if k == "acked" and ok)
+                    if cfg <= 1:
+                        pass        # no follower is required: any acknowledgement event is the leader's own flush
+                    elif not flushed:
+                        out.append(("ack:succed-before-own-log-flush", "ack-lock %d reported SUCCED after %d follower acknowledgement(s) but before the leader's own log flush (ackCount %d)" % (rp["req"], followers, cfg), i))
+                    elif followers < cfg - 1:
+                        out.append(("ack:succed-with-too-few-follower-acks", "ack-lock %d reported SUCCED with %d of %d follower acknowledgements" % (rp["req"], followers, cfg - 1), i))
+        rq = st["req"]
+        if st["panic"] or not st["after"]:
+            break
+        # pending set from the snapshot: holders with ack != 255
+        now_pending = {}
+        for k in st["after"]["keys"].values():
+            for h in live_holders(k):
+                if h["ack"] != 255:
+                    now_pending[h["req"]] = (k["key"], h["lockid"])
+        for rp in st["replies"]:
+            g = tr.reqs.get(rp["req"])
+            if not g or not g["islock"] or not g["tflag"] & 0x1000 or g["flag"] & 4:
+                continue
+            if rp["result"] == 0 and kind == "req" and rp["lrcount"] > 1 and g["expried"] > 0:
+                out.append(("ack:reentrant-relock-answered-before-acknowledgement", "re-entrant re-lock %d carrying require-ack answered SUCCED at once (its record is acknowledged later)" % rp["req"], i))
+                continue
+            if g["eflag"] & 0x200 or g["expried"] == 0:
+                continue        # never-persisted holds / value probes cannot be acknowledged: answered at once by design
+            if rp["result"] == 0 and kind == "req":
+                if rp["lrcount"] > 1:
+                    out.append(("ack:reentrant-relock-answered-before-acknowledgement", "re-entrant re-lock %d carrying require-ack answered SUCCED at once (its record is acknowledged later)" % rp["req"], i))
+                elif rq and rq["req"] == rp["req"] or True:
+                    out.append(("ack:succed-without-acknowledgement", "ack-lock %d reported SUCCED by a request step, not by an acknowledgement" % rp["req"], i))
+        # requests naming a pending LockId
+        if rq and kind == "req":
+            kb = st["before"]["keys"].get(rq["key"])
+            if kb:
+                pend = [h for h in live_holders(kb) if h["ack"] != 255 and h["lockid"] == rq["lockid"]]
+                first = [h for h in live_holders(kb)][:1]
+                if pend and first and (first[0]["lockid"] == rq["lockid"] or pend[0] is first[0] or True):
+                    mine = [rp for rp in st["replies"] if rp["req"] == rq["req"]]
+                    target_is_pending = get_locked(kb, rq["lockid"]) is not None and get_locked(kb, rq["lockid"])["ack"] != 255
+                    if target_is_pending and not (rq["islock"] and rq["flag"] & 1 and not rq["flag"] & 2) and not (not rq["islock"] and False):
+                        if mine and mine[0]["result"] != R["ACKW"] and not (rq["islock"] and rq["flag"] & 8 and rq["timeout"] == 0 and mine[0]["result"] == R["TIMEOUT"]):
+                            out.append(("ack:pending-lockid-not-answered-ack-waiting", "request %d names a LockId whose acknowledgement is pending but was answered %d" % (rq["req"], mine[0]["result"]), i))
+        pending = now_pending
+    return out
+
+
+def get_locked(k, lockid):
+    """LockManager.GetLockedLock on a snapshot: current first, then the holder queue"""
+    for h in live_holders(k):
+        if h["lockid"] == lockid:
+            return h
+    return None
+
+
 def mon_panic(tr):
     out = []
     for i, st in enumerate(tr.steps):
@@ -489,4 +574,4 @@ def mon_panic(tr):
     return out
 
 
-MONITORS = dict(C10=mon_c10, C15=mon_c15, C01=mon_c01, C02=mon_c02, C03=mon_c03, C04=mon_c04, C05=mon_c05, C06=mon_c06, C17=mon_c17, PANIC=mon_panic)
+MONITORS = dict(C11=mon_c11, C10=mon_c10, C15=mon_c15, C01=mon_c01, C02=mon_c02, C03=mon_c03, C04=mon_c04, C05=mon_c05, C06=mon_c06, C17=mon_c17, PANIC=mon_panic)
